@@ -50,6 +50,12 @@ THEOREMS = {"Artap.Props.C07": [
     "C07_parallel_equals_evaluate_serial", "C07_objective_once_per_design", "C07_every_evaluated_design_persisted",
     "C07_costs_belong_to_vector", "C07_refused_store_writes_invisible", "C07_refused_store_writes_once_and_persisted"]}
 AXIOMS_OK = []
+# second tie to the code (tools/py2coq.py + front-end tools/py2coq_eff.py + coq/theories/GenProofs): on every run the source
+# of Evaluator.evaluate_parallel (the submission filter, finding F8; joblib's configuration pinned by text),
+# evaluate_serial and Job.evaluate is translated and proved equal to Model/Parallel.v par_tasks' submission rule and
+# Model/Job.v evaluate_serial / job_evaluate for all inputs
+from harness.core import translated_specs
+TRANSLATED = translated_specs("SignedCostsGen", "JobGen", "EvalPathGen")
 TRUSTED = [
     "Coq 8.16.1 kernel, vm_compute for model evaluation (no native_compute)",
     "hand-written small-step model Model/Parallel.v (steps of Job.evaluate at objective-call / store-sync granularity) over the data "
